@@ -312,6 +312,12 @@ func checkC04(c *Ctx) {
 	c.Rule("R8", "a connection lost during failover loses no command (shared with C02.R3-R5): the terminal drain covers every queue, runs after the reader returned and the writer was joined, and an enqueue that can race with it re-tests the quit latch")
 	c.withAlias(map[string]string{"R3": "R8", "R4": "R8", "R5": "R8"}, func() { checkQueues(c, runOwn(c)) })
 
+	c.Rule("R10", "the router fails only when the routing table has no entry for the slot: with an entry, a node of that entry is returned whatever the read strategy and the number of replicas")
+	checkRouterFailsOnlyWithoutOwner(c, "R10")
+
+	c.Rule("R11", "the refresh that heals a stale table accepts every view Redis can print (shared with C07.R7/C03.R4): the CLUSTER NODES parser rejects a view only for a short line, an address without host:port shape or a malformed slot")
+	checkClusterNodesParser(c, "R11")
+
 	// ---------------- R4
 	e := runOwn(c)
 	inScope := map[*ssa.Function]bool{}
@@ -633,4 +639,81 @@ func isErrorTypeConst(p *Prog, cv int64) bool {
 		}
 	}
 	return false
+}
+
+// checkRouterFailsOnlyWithoutOwner (C04.R10): the function that picks the node for a key fails only when the
+// routing table has no entry for the key's slot. With an entry the owner is known and - whatever the read strategy and
+// however many replicas the entry lists - a node of that entry is returned: a read for a slot whose owner has no
+// replica (after a failover, or a freshly added master) is answered with an error by the proxy although the owner is
+// reachable, and no redirect can heal it because the request never leaves the proxy.
+func checkRouterFailsOnlyWithoutOwner(c *Ctx, rule string) {
+	p := c.P
+	slotsF := p.Field(redisPkg, "upstream", "slots")
+	if slotsF == nil {
+		c.Unresolved(rule, "upstream.slots")
+		return
+	}
+	var choosers []*ssa.Function
+	for _, a := range p.fieldAccesses(slotsF) {
+		if _, ok := a.In.(*ssa.IndexAddr); ok && !a.Write && !p.isTestFn(a.Fn) {
+			dup := false
+			for _, f := range choosers {
+				dup = dup || f == a.Fn
+			}
+			if !dup {
+				choosers = append(choosers, a.Fn)
+			}
+		}
+	}
+	n := 0
+	for _, fn := range choosers {
+		res := fn.Signature.Results()
+		if res.Len() == 0 {
+			continue
+		}
+		if _, isErr := res.At(res.Len() - 1).Type().Underlying().(*types.Interface); !isErr {
+			continue
+		}
+		isEntry := func(v ssa.Value) bool {
+			u, ok := v.(*ssa.UnOp)
+			if !ok {
+				return false
+			}
+			ia, ok := u.X.(*ssa.IndexAddr)
+			if !ok {
+				return false
+			}
+			f, _ := fieldAddr(ia.X)
+			return f == slotsF
+		}
+		nr := 0
+		eachInstr(fn, func(b *ssa.BasicBlock, _ int, in ssa.Instruction) {
+			ret, ok := in.(*ssa.Return)
+			if !ok {
+				return
+			}
+			nr++
+			n++
+			site := fmt.Sprintf("%s return#%d fails only without an entry", fnKey(fn), nr)
+			vals := returnedValues(ret)
+			errV := vals[len(vals)-1]
+			if isNilConst(errV) {
+				c.OK(rule, site, ret.Pos(), "returns a nil error")
+				return
+			}
+			noEntry := false
+			for _, a := range atomsAt(b, 0) {
+				if !isNilConst(a.cmp.Y) || !isEntry(a.cmp.X) {
+					continue
+				}
+				if (a.cmp.Op == token.EQL) == a.truth {
+					noEntry = true
+				}
+			}
+			c.Check(noEntry, rule, site, ret.Pos(), "an error (or the result of the seed-host fallback) is returned only on the entry == nil side", "the router can return an error although the routing table has an entry for the slot: the owner is known and reachable, but the command is answered with an error by the proxy - e.g. a read under the REPLICA strategy for an owner that has no replica (after a failover, a newly added master); no redirect heals it, the request never leaves the proxy")
+		})
+	}
+	if n == 0 {
+		c.Unresolved(rule, "no function with an error result reads upstream.slots[i]")
+	}
 }
